@@ -88,19 +88,19 @@ func runOverride(p *Program, sp *Spec, c *Collector, ls ListenerSpec) {
 	ipr, in := splitTypeKey(ls.Interface)
 	ipk := p.ByPath[joinMod(ipr)]
 	if pk == nil || ipk == nil {
-		c.Fatal("E6: listener %s / interface %s: package does not resolve", ls.Type, ls.Interface)
+		c.Anchor(ls.Props, "E6: listener %s / interface %s: package does not resolve", ls.Type, ls.Interface)
 		return
 	}
 	tobj := pk.Types.Scope().Lookup(tn)
 	iobj := ipk.Types.Scope().Lookup(in)
 	if tobj == nil || iobj == nil {
-		c.Fatal("E6: listener %s / interface %s does not resolve", ls.Type, ls.Interface)
+		c.Anchor(ls.Props, "E6: listener %s / interface %s does not resolve", ls.Type, ls.Interface)
 		return
 	}
 	named, _ := tobj.Type().(*types.Named)
 	iface, _ := iobj.Type().Underlying().(*types.Interface)
 	if named == nil || iface == nil {
-		c.Fatal("E6: %s is not a named type or %s not an interface", ls.Type, ls.Interface)
+		c.Anchor(ls.Props, "E6: %s is not a named type or %s not an interface", ls.Type, ls.Interface)
 		return
 	}
 	ifaceMethods := map[string]*types.Func{}
@@ -128,7 +128,7 @@ func runOverride(p *Program, sp *Spec, c *Collector, ls ListenerSpec) {
 		key := "listener:" + ls.Type + " callback:" + name
 		im := ifaceMethods[name]
 		if im == nil {
-			c.Fatal("E6: required callback %s is not a method of %s", name, ls.Interface)
+			c.Anchor(ls.Props, "E6: required callback %s is not a method of %s", name, ls.Interface)
 			continue
 		}
 		dm := declared[name]
@@ -204,8 +204,8 @@ type mustCallAn struct {
 	p            *Program
 	storeTargets map[string]bool
 	targets      map[*ssa.Function]bool
-	memo    map[*ssa.Function]int // 1 always, 2 not always
-	prog    map[*ssa.Function]bool
+	memo         map[*ssa.Function]int // 1 always, 2 not always
+	prog         map[*ssa.Function]bool
 }
 
 // always: every path from fn's entry to a return passes a call that reaches a target.
@@ -378,7 +378,7 @@ func (m *mustCallAn) check(fn *ssa.Function) (bool, ssa.Instruction) {
 func runMustCall(p *Program, c *Collector, mc MustCallSpec) {
 	fn := p.Func(mc.Func)
 	if fn == nil {
-		c.Fatal("E6: must-call: %s does not resolve", mc.Func)
+		c.Anchor(mc.Props, "E6: must-call: %s does not resolve", mc.Func)
 		return
 	}
 	m := &mustCallAn{p: p, targets: map[*ssa.Function]bool{}, memo: map[*ssa.Function]int{}, prog: map[*ssa.Function]bool{}}
@@ -394,7 +394,7 @@ func runMustCall(p *Program, c *Collector, mc MustCallSpec) {
 		}
 		tf := p.Func(t)
 		if tf == nil {
-			c.Fatal("E6: must-call: target %s does not resolve", t)
+			c.Anchor(mc.Props, "E6: must-call: target %s does not resolve", t)
 			return
 		}
 		m.targets[tf] = true
@@ -416,7 +416,7 @@ func runPair(p *Program, c *Collector, ps PairSpec) {
 	fn := p.Func(ps.Exit)
 	g := p.Global(ps.Global)
 	if fn == nil || g == nil {
-		c.Fatal("E6: pairing: %s / %s does not resolve", ps.Exit, ps.Global)
+		c.Anchor(ps.Props, "E6: pairing: %s / %s does not resolve", ps.Exit, ps.Global)
 		return
 	}
 	a := getStateAn(p)
@@ -479,7 +479,7 @@ func loopHeader(loop map[*ssa.BasicBlock]bool) *ssa.BasicBlock {
 func runEmissionLoop(p *Program, c *Collector, ls LoopSpec) {
 	fn := p.Func(ls.Func)
 	if fn == nil {
-		c.Fatal("E6: emission loop: %s does not resolve", ls.Func)
+		c.Anchor(ls.Props, "E6: emission loop: %s does not resolve", ls.Func)
 		return
 	}
 	loops := naturalLoops(fn)
@@ -993,7 +993,7 @@ func globalFullName(g *ssa.Global) string { return g.Pkg.Pkg.Path() + "." + g.Na
 func runPrecede(p *Program, c *Collector, pr PrecedeSpec) {
 	fn := p.Func(pr.Func)
 	if fn == nil {
-		c.Fatal("E6: must-precede: %s does not resolve", pr.Func)
+		c.Anchor(pr.Props, "E6: must-precede: %s does not resolve", pr.Func)
 		return
 	}
 	fresh := map[string]bool{}
@@ -1191,7 +1191,7 @@ func (a *crAn) summary(fn *ssa.Function) int {
 func runConsumeReset(p *Program, c *Collector, cs ConsumeResetSpec) {
 	fn := p.Func(cs.Func)
 	if fn == nil {
-		c.Fatal("E6: consume-reset: %s does not resolve", cs.Func)
+		c.Anchor(cs.Props, "E6: consume-reset: %s does not resolve", cs.Func)
 		return
 	}
 	a := &crAn{p: p, spec: cs, memo: map[*ssa.Function]int{}, prog: map[*ssa.Function]bool{}}
